@@ -70,13 +70,13 @@ pub fn rich_objects() -> Vec<(u64, Val)> {
             ("Font", Val::dict(vec![("F1", Val::r(9)), ("F2", Val::r(12))])),
             ("XObject", Val::dict(vec![("Im1", Val::r(16)), ("Fm1", Val::r(17)), ("Im2", Val::r(18))])),
             ("ExtGState", Val::dict(vec![("GS1", Val::dict(vec![("Type", Val::name("ExtGState")), ("LW", Val::Int(2)), ("CA", Val::real("0.5"))]))])),
-            ("ColorSpace", Val::dict(vec![("CS1", Val::Array(vec![Val::name("Indexed"), Val::name("DeviceRGB"), Val::Int(1), Val::Str(vec![0, 0, 0, 255, 255, 255])])), ("CS2", Val::Array(vec![Val::name("ICCBased"), Val::r(35)]))])),
+            ("ColorSpace", Val::dict(vec![("CS1", Val::Array(vec![Val::name("Indexed"), Val::name("DeviceRGB"), Val::Int(1), Val::Str(vec![0, 0, 0, 255, 255, 255])])), ("CS2", Val::Array(vec![Val::name("ICCBased"), Val::r(35)])), ("CS8", Val::Array(vec![Val::name("Pattern"), Val::name("DeviceRGB")])), ("CS9", Val::Array(vec![Val::name("CalRGB"), Val::dict(vec![("WhitePoint", Val::Array(vec![Val::real("0.9505"), Val::Int(1), Val::real("1.089")])), ("Gamma", Val::Array(vec![Val::real("2.2"), Val::real("2.2"), Val::real("2.2")]))])]))])),
             ("Pattern", Val::dict(vec![("P1", Val::r(36))])),
             ("Shading", Val::dict(vec![("Sh1", Val::dict(vec![("ShadingType", Val::Int(2)), ("ColorSpace", Val::name("DeviceRGB")), ("Coords", Val::ints(&[0, 0, 1, 1])), ("Function", Val::dict(vec![("FunctionType", Val::Int(2)), ("Domain", Val::ints(&[0, 1])), ("C0", Val::ints(&[0, 0, 0])), ("C1", Val::ints(&[1, 1, 1])), ("N", Val::Int(1))]))]))])),
             ("Properties", Val::dict(vec![("MC0", Val::dict(vec![("Kind", Val::name("Layer"))]))])),
         ]),
     ));
-    let content_a = b"q 1 0 0 1 72 700 cm BT /F1 12 Tf 14 TL (Hello) Tj T* [(Wor) -20 (ld)] TJ ET Q\n/GS1 gs /CS1 cs 1 sc 10 10 100 50 re f\nq 50 0 0 50 100 100 cm /Im1 Do Q\n/Fm1 Do\nBI /W 2 /H 2 /CS /G /BPC 8 ID \x00\x55\xaa\xff EI\n0.5 g 1 0 0 RG 0 0 m 10 10 l 20 20 30 30 40 40 c h S\n/Sh1 sh /OC /MC0 BDC EMC\n".to_vec();
+    let content_a = b"q 1 0 0 1 72 700 cm BT /F1 12 Tf 14 TL (Hello) Tj T* [(Wor) -20 (ld)] TJ ET Q\n/GS1 gs /CS1 cs 1 sc 10 10 100 50 re f\nq 50 0 0 50 100 100 cm /Im1 Do Q\n/Fm1 Do\nBI /W 2 /H 2 /CS /G /BPC 8 ID \x00\x55\xaa\xff EI\n0.5 g 1 0 0 RG 0 0 m 10 10 l 20 20 30 30 40 40 c h S\n/Sh1 sh /OC /MC0 BDC EMC\n/CS2 CS 0.1 0.2 0.3 SC /CS9 cs 0.25 0.5 0.75 sc /CS8 cs 0.5 0.5 0.5 /P1 scn 1 1 2 2 re B\n".to_vec();
     o.push((6, Val::stream(vec![], content_a)));
     o.push((7, Val::stream(vec![("Filter", Val::name("FlateDecode"))], pf::flate_encode(b"BT /F2 10 Tf <00010002> Tj ", pf::FlateStyle::ZlibDefault))));
     o.push((8, Val::stream(vec![("Filter", Val::Array(vec![Val::name("ASCII85Decode")]))], pf::a85_encode(b"ET\n/P1 scn 0 0 5 5 re B\n", pf::A85Style::Lines))));
